@@ -1281,6 +1281,18 @@ func (r *Resolver) getTrigger(id uint64) (*trigger, bool) {
 	return trig, ok
 }
 
+// getTriggerForUpdater returns the trigger registered under the updater's id, but only while it is
+// the updater's own trigger. Once that trigger has been removed, the same id can be registered again
+// (same input subscribed anew) before the old trigger context is cancelled; events, completions and
+// errors of the old source must not reach the subscribers of the new trigger.
+func (r *Resolver) getTriggerForUpdater(updater *subscriptionUpdater) (*trigger, bool) {
+	trig, ok := r.getTrigger(updater.triggerID)
+	if !ok || trig.updater != updater {
+		return nil, false
+	}
+	return trig, true
+}
+
 // markTriggerInitialized marks a trigger as initialized and reports it.
 func (r *Resolver) markTriggerInitialized(trig *trigger) {
 	// Under r.mu and only while this very trigger is still registered: the removal paths read
@@ -1328,8 +1340,8 @@ func (r *Resolver) doneTriggerFromUpdater(triggerID uint64, updater *subscriptio
 
 // handleTriggerComplete delivers a complete signal to all subscriptions on the trigger.
 // Does NOT detach the trigger — Done() does that.
-func (r *Resolver) handleTriggerComplete(triggerID uint64) {
-	trig, ok := r.getTrigger(triggerID)
+func (r *Resolver) handleTriggerComplete(updater *subscriptionUpdater) {
+	trig, ok := r.getTriggerForUpdater(updater)
 	if !ok {
 		return
 	}
@@ -1345,8 +1357,8 @@ func (r *Resolver) handleTriggerComplete(triggerID uint64) {
 
 // handleTriggerError delivers a terminal error to all subscriptions on the trigger,
 // bypassing the resolve pipeline. Does NOT detach the trigger — Done() does that.
-func (r *Resolver) handleTriggerError(triggerID uint64, data []byte) {
-	trig, ok := r.getTrigger(triggerID)
+func (r *Resolver) handleTriggerError(updater *subscriptionUpdater, data []byte) {
+	trig, ok := r.getTriggerForUpdater(updater)
 	if !ok {
 		return
 	}
@@ -1506,13 +1518,13 @@ type pendingFilterError struct {
 }
 
 // handleTriggerUpdate sends data to all subscriptions of a trigger.
-func (r *Resolver) handleTriggerUpdate(id uint64, data []byte) {
-	trig, ok := r.getTrigger(id)
+func (r *Resolver) handleTriggerUpdate(updater *subscriptionUpdater, data []byte) {
+	trig, ok := r.getTriggerForUpdater(updater)
 	if !ok {
 		return
 	}
 	if r.options.Debug {
-		fmt.Printf("resolver:trigger:update:%d\n", id)
+		fmt.Printf("resolver:trigger:update:%d\n", updater.triggerID)
 	}
 
 	subs, filterErrors := trig.filterSubscriptions(data)
@@ -1534,14 +1546,14 @@ func (r *Resolver) handleTriggerUpdate(id uint64, data []byte) {
 }
 
 // handleUpdateSubscription sends data to a single subscription.
-func (r *Resolver) handleUpdateSubscription(id uint64, data []byte, subIdentifier SubscriptionIdentifier) {
-	trig, ok := r.getTrigger(id)
+func (r *Resolver) handleUpdateSubscription(updater *subscriptionUpdater, data []byte, subIdentifier SubscriptionIdentifier) {
+	trig, ok := r.getTriggerForUpdater(updater)
 	if !ok {
 		return
 	}
 
 	if r.options.Debug {
-		fmt.Printf("resolver:trigger:subscription:update:%d:%d,%d\n", id, subIdentifier.ConnectionID, subIdentifier.SubscriptionID)
+		fmt.Printf("resolver:trigger:subscription:update:%d:%d,%d\n", updater.triggerID, subIdentifier.ConnectionID, subIdentifier.SubscriptionID)
 	}
 
 	sub, filterErr := trig.filterSubscription(subIdentifier, data)
@@ -1957,13 +1969,16 @@ func (s *subscriptionUpdater) Update(data []byte) {
 	if s.debug {
 		fmt.Printf("resolver:subscription_updater:update:%d\n", s.triggerID)
 	}
-	s.resolver.handleTriggerUpdate(s.triggerID, data)
+	s.resolver.handleTriggerUpdate(s, data)
 }
 
 func (s *subscriptionUpdater) Heartbeat() {
 	s.mu.Lock()
 	defer s.mu.Unlock()
 	if s.done || s.ctx.Err() != nil {
+		return
+	}
+	if _, ok := s.resolver.getTriggerForUpdater(s); !ok {
 		return
 	}
 	s.resolver.heartbeatTriggerSubscriptions(s.triggerID)
@@ -1978,7 +1993,7 @@ func (s *subscriptionUpdater) UpdateSubscription(id SubscriptionIdentifier, data
 	if s.debug {
 		fmt.Printf("resolver:subscription_updater:update:%d\n", s.triggerID)
 	}
-	s.resolver.handleUpdateSubscription(s.triggerID, data, id)
+	s.resolver.handleUpdateSubscription(s, data, id)
 }
 
 func (s *subscriptionUpdater) Subscriptions() map[context.Context]SubscriptionIdentifier {
@@ -1997,7 +2012,7 @@ func (s *subscriptionUpdater) Complete() {
 	if s.debug {
 		fmt.Printf("resolver:subscription_updater:complete:%d\n", s.triggerID)
 	}
-	s.resolver.handleTriggerComplete(s.triggerID)
+	s.resolver.handleTriggerComplete(s)
 }
 
 func (s *subscriptionUpdater) Error(data []byte) {
@@ -2012,7 +2027,7 @@ func (s *subscriptionUpdater) Error(data []byte) {
 	if s.debug {
 		fmt.Printf("resolver:subscription_updater:error:%d\n", s.triggerID)
 	}
-	s.resolver.handleTriggerError(s.triggerID, data)
+	s.resolver.handleTriggerError(s, data)
 }
 
 func (s *subscriptionUpdater) Done() {
